@@ -16,6 +16,12 @@ that the fixed script coq/gen_proofs/C07_GenFull_Properties.v proves equal to th
 Fail closed: a construct outside the grammar poisons the names it defines; a poisoned name reaching an observed value
 raises TranslateError (reported by the check as a broken tie).  Loops are executed once, symbolically in the loop index;
 names carried from one iteration to the next (other than the result accumulators) are rejected.
+Control flow is part of what is read: `continue` / `break` / `return` / `raise` under a condition the translator cannot
+read, or under one that is not a constant of the configuration, is rejected (such a branch assigns nothing, so poisoning
+names cannot carry it to the result: `if blank[i]: continue` used to be dropped silently); a raise-only guard is
+accepted only when it mentions nothing but theta / A / len; the skipped forms are matched exactly:
+`if x.ndim == 2: x = x.unsqueeze(0)`, `if <ignored argument> is None: <that name> = ...`,
+`x.squeeze(0) if x.shape[0] == 1 else x`.
 
 FIXED MEANINGS given to library calls (the trusted part; everything else is read from the source):
   torch.arange(a, b, s) -> torch_arange a b s (model) / j |-> a + j s;   torch.cat -> ++;   zeros -> 0
@@ -567,6 +573,9 @@ class Ev:
             return Marker("angles")
         # batch squeeze of the result
         if "shape" in ast.unparse(t):
+            nm = node.orelse.id if isinstance(node.orelse, ast.Name) else None
+            if nm is None or ast.unparse(node) != "%s.squeeze(0) if %s.shape[0] == 1 else %s" % (nm, nm, nm):
+                _fail(node, "a conditional on a shape other than `x.squeeze(0) if x.shape[0] == 1 else x` is outside the grammar")
             self.obs.setdefault("return_squeeze", ast.unparse(node))
             body = self.ev(node.orelse)
             return body
@@ -1045,9 +1054,18 @@ class Ev:
         for st in stmts:
             self.stmt(st)
 
+    @staticmethod
+    def control_flow(stmts, raises=True):
+        """the control-flow statements (continue / break / return, and raise) anywhere inside stmts"""
+        kinds = (ast.Continue, ast.Break, ast.Return) + ((ast.Raise,) if raises else ())
+        return [sub for st in stmts for sub in ast.walk(st) if isinstance(sub, kinds)]
+
     def stmt(self, st):
         if isinstance(st, ast.Expr) and isinstance(st.value, ast.Constant):
             return
+        if isinstance(st, (ast.Continue, ast.Break)):
+            # a skipped / truncated projection changes what is accumulated: never readable as a no-op
+            _fail(st, "`%s` inside the loop over the angles is outside the grammar" % ast.unparse(st))
         if isinstance(st, ast.Pass):
             return
         if isinstance(st, ast.Raise):
@@ -1168,7 +1186,14 @@ class Ev:
     def if_stmt(self, st):
         t = st.test
         src = ast.unparse(t)
-        if ".ndim" in src:                       # 2-D input -> batch of one
+        if ".ndim" in src:                       # 2-D input -> batch of one: exactly `if x.ndim == 2: x = x.unsqueeze(0)`
+            ok = (isinstance(t, ast.Compare) and len(t.ops) == 1 and isinstance(t.ops[0], ast.Eq)
+                  and isinstance(t.left, ast.Attribute) and t.left.attr == "ndim" and isinstance(t.left.value, ast.Name)
+                  and isinstance(t.comparators[0], ast.Constant) and t.comparators[0].value == 2
+                  and not st.orelse and len(st.body) == 1
+                  and ast.unparse(st.body[0]) == "%s = %s.unsqueeze(0)" % (t.left.value.id, t.left.value.id))
+            if not ok:
+                _fail(st, "a branch on .ndim other than `if x.ndim == 2: x = x.unsqueeze(0)` is outside the grammar")
             return
         if isinstance(t, ast.Name) and t.id == "circle" and self.circle is not None:
             return self.run(st.body if self.circle else st.orelse)
@@ -1177,6 +1202,12 @@ class Ev:
             nm = t.left.id
             cur = self.env.get(nm)
             if cur is IGN or nm == "output_size":
+                # a default for an argument the tie does not follow (device) / ties elsewhere (output_size, geometry
+                # translator): the body may only give that name a value
+                if self.assigned_names(st.body) - {nm} or self.control_flow(st.body) or \
+                        not all(isinstance(b, ast.Assign) and len(b.targets) == 1 and isinstance(b.targets[0], ast.Name)
+                                for b in st.body):
+                    _fail(st, "the body of `if %s is None` does more than give `%s` a default" % (nm, nm))
                 return
             if nm == "theta":
                 sub = Ev(self.func, self.circle, self.fname)
@@ -1193,7 +1224,13 @@ class Ev:
         except TranslateError as e:
             if raise_only:
                 self.obs.setdefault("guards_skipped", []).append(src)
+                self.obs.setdefault("guards_skipped_nodes", []).append(t)
                 return
+            if self.control_flow(st.body + st.orelse):
+                # `if <something the translator cannot read>: continue / break / return / raise`: the branch assigns
+                # nothing, so poisoning names cannot carry it to the result - it changes WHICH statements run
+                _fail(st, "control flow (%s) under a condition outside the grammar `%s` (%s)" % (
+                    ", ".join(sorted({type(c).__name__.lower() for c in self.control_flow(st.body + st.orelse)})), src[:80], e))
             for n in self.touched(st.body + st.orelse):
                 self.env[n] = Poison("assigned under a condition outside the grammar (%s)" % e)
             return
@@ -1203,6 +1240,9 @@ class Ev:
             if raise_only:
                 self.obs.setdefault("guards", []).append(c)
                 return
+        if self.control_flow(st.body + st.orelse):
+            _fail(st, "control flow (%s) under a condition that is not a constant of the configuration: `%s`" % (
+                ", ".join(sorted({type(c).__name__.lower() for c in self.control_flow(st.body + st.orelse)})), src[:80]))
         for n in self.touched(st.body + st.orelse):
             self.env[n] = Poison("assigned under a symbolic condition `%s`" % src[:60])
 
@@ -1339,6 +1379,39 @@ def _patch_sinc():
 _patch_sinc()
 
 
+def _check_skipped_guards(ev, what, allowed_names=()):
+    """a raise-only guard whose condition the translator cannot read is accepted only when it mentions nothing but the
+    angle vector and the number of projections (it cannot depend on the image / sinogram values)"""
+    for node in ev.obs.get("guards_skipped_nodes", []):
+        names = {n.id for n in ast.walk(node) if isinstance(n, ast.Name)}
+        if not names <= set(allowed_names):
+            raise TranslateError("%s: a guard the translator cannot read mentions %s: `%s`" % (
+                what, ", ".join(sorted(names - set(allowed_names))), ast.unparse(node)[:100]))
+    # a raise guard on a symbolic condition: symbolic values are sizes, never data; accepted when it speaks about the
+    # number of projections only (`len(theta) != A`), a guard on the image / detector / output size is outside the grammar
+    def free(e, out):
+        if isinstance(e, Ex):
+            if e.op == "var":
+                out.add(e.args[0])
+            elif e.op == "raw":
+                out.add("<raw:%s>" % (e.args[0],))
+            else:
+                for a in e.args:
+                    free(a, out)
+        elif isinstance(e, IfS):
+            for a in (e.c, e.a, e.b):
+                free(a, out)
+        elif isinstance(e, (list, tuple)):
+            for a in e:
+                free(a, out)
+        return out
+    for g in ev.obs.get("guards", []):
+        fv = free(g, set())
+        if not fv <= {"A"}:
+            raise TranslateError("%s: a raise guard on the sizes %s is outside the grammar: %s" % (
+                what, ", ".join(sorted(fv)), render(g)[:200]))
+
+
 def _theta_default(v, what):
     if not (isinstance(v, Ten) and len(v.shape) == 1):
         raise TranslateError("%s: the default of theta is not a translated vector" % what)
@@ -1350,6 +1423,7 @@ def translate_radon(tree) -> list[str]:
     ev = Ev("radon_torch")
     ev.env.update(images=Opaque("images", [zv("B"), zv("H"), zv("W")]), theta=Marker("angles"), device=IGN)
     _run(ev, fn)
+    _check_skipped_guards(ev, "radon_torch")
     o = ev.obs
     lines = []
     if o.get("loops") != 1 or "projection" not in o:
@@ -1412,6 +1486,7 @@ def translate_iradon(tree) -> list[str]:
         ev.env.update(sinograms=Opaque("sinograms", [zv("B"), zv("A"), zv("N0")]), theta=Marker("angles"), device=IGN,
                       output_size=zv("out"), filter_name=Marker("fname"), circle=Ex("B", "const", circle))
         _run(ev, fn)
+        _check_skipped_guards(ev, "iradon_torch(%s)" % tag, ("theta", "A", "len"))
         o = ev.obs
         acc = o.get("return")
         if not (isinstance(acc, Marker) and acc.what == "acc"):
